@@ -416,6 +416,60 @@ func (u c19Uni) alphabet() []c19Op {
 }
 
 // c19Witnesses: logs that must stay in the stream whatever the seed.
+// an adapter with the five mandatory calls only (no batch, no update calls)
+type c19MinAdapter struct{}
+
+func (c19MinAdapter) LoadPolicy(model.Model) error                   { return nil }
+func (c19MinAdapter) SavePolicy(model.Model) error                   { return nil }
+func (c19MinAdapter) AddPolicy(string, string, []string) error       { return nil }
+func (c19MinAdapter) RemovePolicy(string, string, []string) error    { return nil }
+func (c19MinAdapter) RemoveFilteredPolicy(string, string, int, ...string) error {
+	return nil
+}
+
+// the storage adapter is touched only when the persist predicate says so: a replica that never
+// persists needs no adapter at all (or only a minimal one) -- with the predicate answering false
+// every *Self operation gives the results and the policy of a replica that has a full adapter.
+func c19BareReplicas(c *Ctx) {
+	seq := []c19Op{
+		{Kind: "add", Pt: "p", R1: [][]string{{"alice", "data1", "read"}, {"bob", "data2", "write"}}},
+		{Kind: "add", Pt: "g", R1: [][]string{{"alice", "admin"}}},
+		{Kind: "update", Pt: "p", R1: [][]string{{"alice", "data1", "read"}}, R2: [][]string{{"alice", "data1", "write"}}},
+		{Kind: "updatemany", Pt: "p", R1: [][]string{{"bob", "data2", "write"}}, R2: [][]string{{"bob", "data3", "write"}}},
+		{Kind: "updatefiltered", Pt: "p", R2: [][]string{{"carol", "data1", "read"}}, Fi: 0, Fvs: []string{"alice"}},
+		{Kind: "update", Pt: "g", R1: [][]string{{"alice", "admin"}}, R2: [][]string{{"alice", "staff"}}},
+		{Kind: "updatemany", Pt: "g", R1: [][]string{{"alice", "staff"}}, R2: [][]string{{"alice", "root"}}},
+		{Kind: "removefiltered", Pt: "p", Fi: 0, Fvs: []string{"bob"}},
+		{Kind: "remove", Pt: "g", R1: [][]string{{"alice", "root"}}},
+		{Kind: "clear"},
+	}
+	for _, kind := range []string{"no-adapter", "minimal-adapter"} {
+		ref := c19NewReplica(machRBAC, false)
+		m, _ := model.NewModelFromString(machRBAC.Text)
+		var d *casbin.DistributedEnforcer
+		var err error
+		if kind == "no-adapter" {
+			d, err = casbin.NewDistributedEnforcer(m)
+		} else {
+			d, err = casbin.NewDistributedEnforcer(m, c19MinAdapter{})
+		}
+		if err != nil {
+			c.Direct("c19.bare."+kind, "cannot build the replica", err.Error())
+			continue
+		}
+		bare := &c19Replica{D: d, A: newRecAdapter(), M: &mach{Conf: machRBAC, E: d.Enforcer, A: newRecAdapter()}}
+		for k, o := range seq {
+			a, b := ref.apply(o, false), bare.apply(o, false)
+			la, lb := ref.M.listedKey(), bare.M.listedKey()
+			if a != b || la != lb {
+				c.Direct(fmt.Sprintf("c19.bare.%s.%d", kind, k), fmt.Sprintf("persist predicate false: %s on a replica with %s gives %s / %s, a replica with a full adapter gives %s / %s", o.Sx(), kind, b, lb, a, la), "")
+				break
+			}
+		}
+		c.Count("bare-replica")
+	}
+}
+
 func c19Witnesses(u c19Uni) [][]c19Op {
 	G, P := u.rules["g"], u.rules["p"]
 	g := func(is ...int) [][]string {
@@ -998,6 +1052,7 @@ func c19RandomLog(c *Ctx, u c19Uni, maxLen int, nrep int, withFiltered bool, wit
 
 func init() {
 	register("C19", func(c *Ctx) {
+		c19BareReplicas(c)
 		c.Rule = "four real DistributedEnforcer replicas (persist always / never / seeded coin without dispatcher, and a fourth one with a seeded coin that is wired to its own recording persist.Dispatcher through SetDispatcher, auto-notify on) over recording set-semantics adapters apply the same log of *Self calls, on three models: RBAC (p, p2, g, g2), RBAC with domains, and a model with an explicit priority column (p = priority, sub, obj, act, eft under priority(p.eft) || deny; seven p rules whose priorities force insertion in front of listed rules, ties, and rules that sort last). Observed per call and replica: result, adapter calls and content, listed rules, what the index (PolicyMap) knows about every rule of the universe, HasLink/GetRoles/GetUsers, Enforce decisions, and for the wired replica the calls its dispatcher received (the model says: none, ever). (0) fixed witnesses (F02 links and memoised g() results after ClearPolicySelf, a fully replayed log, a refused batch update; priority model: insertion in front then removal / update / batch update of the rule that sorts last, each replayed, ties, the priority effect with a link); (1) exhaustive: every log of length <= 3 on the RBAC model (thorough: also length 4 for logs starting with an AddPoliciesSelf), <= 2 on the domain model and on the priority model (thorough: <= 3 there) over an alphabet of 25 (RBAC) / 23 (domain) / 30 (priority) calls with repeated and overlapping batches, observed after its last call; (2) seeded random logs of <= 12 calls (random batches with repetition, replayed entries, empty batches, unknown type), observed after every call; (3) a single persisting replica with injected adapter failures and (4) a single persisting replica with UpdateFilteredPoliciesSelf — in both the replica is wired to a dispatcher in every second log. Direct predicates on the implementation alone: the wired replica's dispatcher never receives a call (every stream, no guard); replicas agree (results, listed rules, indexed rules, links, decisions); persist only when asked; a failed persist leaves memory alone; and inside the guards (F08: update targets not listed, no identity update): the reported rules / flag of Add / Remove / RemoveFiltered / Update / UpdatePolicies are exactly what was added / removed / replaced (every rule reported as removed is no longer listed, every rule no longer listed was reported, the others keep their order), the index knows exactly the listed rules, a repeated call reports nothing and changes nothing, and a type with a priority column that was sorted stays sorted (numeric priorities; removals always). OUTSIDE the F08 guard the model follows the code, so such calls are part of the correspondence stream (and of the guard-independent predicates): (1b) from every in-guard state of the exhaustive part up to length 1 (half of the length-2 logs behind an AddPoliciesSelf; thorough: all of length 2) every identity update, update onto a listed rule, overlapping / swapping / identity batch update of g, p (and g2), followed by AddPoliciesSelf and RemovePoliciesSelf of the type's whole rule universe, and a third of the random logs of (2) keep half of their out-of-guard draws (batches of <= 2 pairs) and go on behind them — except on a type with a priority column (F08 x priority bubble: the duplicated rule's single index entry is bumped past the end of the list and a later RemovePoliciesSelf panics where Store.remove is total). Distinct = (model, log); non-trivial = the log contains a call that changes memory or reports a non-empty result."
 		unis := []c19Uni{c19RBAC(), c19Domain(), c19Priority()}
 		// (0) fixed witnesses, observed after every call on the three replicas
